@@ -349,6 +349,8 @@ class Eval:
                 kind = ("tuple",)
             elif "array" in k:
                 kind = ("array",)
+                # elements that are references to locals are read now (`[alpha, digest.as_slice()].concat()`)
+                ops = tuple(self.value_of(o, st) if o.op == "addr" else o for o in ops)
             elif "adt" in k:
                 kind = ("adt", k["adt"], k["variant"], tuple(k.get("fields", ())))
             elif "closure" in k:
@@ -656,6 +658,27 @@ class Eval:
                 if ra.op == "agg" and ra.a[0][0] == "closure":
                     pass
             self.sites[b] = site
+            if c and c.get("name") in ("is_some", "is_none", "is_ok", "is_err", "unwrap_or_default", "unwrap_or", "unwrap", "expect", "unwrap_unchecked") and c.get("crate") in ("core", "std") and args:
+                # queries on a value built with a known constructor are decided
+                rv_ = args[0]
+                while rv_.op in ("ref", "deref"):
+                    rv_ = rv_.a[0]
+                if rv_.op == "agg" and rv_.a[0][0] == "adt" and rv_.a[0][1] in ("Option", "Result"):
+                    var_ = rv_.a[0][2]
+                    good_ = var_ in ("Some", "Ok")
+                    nm_ = c.get("name")
+                    if nm_ in ("is_some", "is_ok"):
+                        val = T("const", "int", int(good_), "bool")
+                        site.value = val
+                    elif nm_ in ("is_none", "is_err"):
+                        val = T("const", "int", int(not good_), "bool")
+                        site.value = val
+                    elif good_ and rv_.a[1]:
+                        val = rv_.a[1][0]
+                        site.value = val
+                    elif nm_ == "unwrap_or" and len(args) == 2:
+                        val = args[1]
+                        site.value = val
             if self.assume and c and c.get("name") in ("eq", "ne") and c.get("trait") == "PartialEq" and len(args) == 2:
                 fv = self._fold_variant_eq(args[0], args[1])
                 if fv is not None:
